@@ -6,6 +6,19 @@ fn run<const B: usize, const L: usize>(p: &[&str]) -> String {
     let op = p[0];
     match op {
         "sum" | "sumref" => {
+            if p[2].split(',').any(|t| t == "N") {
+                // `N` = the iterator returns `None` there and goes on afterwards (a non-fused iterator): only the items
+                // before the first `None` belong to the sum
+                let items: Vec<Option<U<B, L>>> =
+                    p[2].split(',').map(|t| if t == "N" { None } else { Some(u::<B, L>(t)) }).collect();
+                let mut i = 0usize;
+                let r: U<B, L> = if op == "sum" {
+                    std::iter::from_fn(|| { let r = items.get(i).copied().flatten(); i += 1; r }).sum()
+                } else {
+                    std::iter::from_fn(|| { let r = items.get(i).and_then(|o| o.as_ref()); i += 1; r }).sum()
+                };
+                return h(&r);
+            }
             let xs: Vec<U<B, L>> =
                 if p[2] == "-" { vec![] } else { p[2].split(',').map(u::<B, L>).collect() };
             let r: U<B, L> = if op == "sum" { xs.into_iter().sum() } else { xs.iter().sum() };
